@@ -5,8 +5,10 @@ import (
 	"encoding/binary"
 	"fmt"
 	"runtime"
+	"sort"
 	"strings"
 	"sync"
+	"sync/atomic"
 	"testing"
 	"testing/synctest"
 	"time"
@@ -30,21 +32,57 @@ const (
 )
 
 type c15Ev struct {
-	Kind  string // "bfd" | "timeout"
+	Kind  string // "bfd" | "timeout" | "wait"
 	Link  string // "ext" | "sib" | "ext-nobfd" | "sib-nobfd"
 	State uint8  // BFD state in the packet: 0 AdminDown 1 Down 2 Init 3 Up
 	Mine  bool   // YourDiscriminator = the session's local discriminator (else 0)
+	// timing parameters the packet announces (0: the defaults c15RemoteMult / c15RemoteTxMs, which differ from
+	// the router's own configuration on purpose)
+	Mult uint8 // Detect Mult
+	TxMs int   // Desired Min TX Interval = Required Min RX Interval, milliseconds
+	// Kind "wait": let the virtual clock run, without any BFD packet, until Wait after the last BFD packet that was
+	// injected on Link
+	Wait time.Duration
 }
+
+// Timing parameters of the neighbour in the BFS part. They differ from the router's own (3 x 200 ms) so that a
+// detection time computed from the wrong side's multiplier or interval does not coincide with the right one:
+// RFC 5880 6.8.4 gives 2 x max(200 ms, 300 ms) = 600 ms; the time-out event (700 ms) lies between this and 3 x 300 ms.
+const (
+	c15RemoteMult = 2
+	c15RemoteTxMs = 300
+)
 
 func (e c15Ev) String() string {
 	if e.Kind == "timeout" {
 		return "timeout"
 	}
+	if e.Kind == "wait" {
+		return fmt.Sprintf("%s:silent-until+%v", e.Link, e.Wait)
+	}
 	y := "your=0"
 	if e.Mine {
 		y = "your=mine"
 	}
-	return fmt.Sprintf("%s<-%s/%s", e.Link, []string{"AdminDown", "Down", "Init", "Up"}[e.State], y)
+	s := fmt.Sprintf("%s<-%s/%s", e.Link, []string{"AdminDown", "Down", "Init", "Up"}[e.State], y)
+	if e.Mult != 0 || e.TxMs != 0 {
+		s += fmt.Sprintf("/mult=%d,tx=%dms", e.mult(), e.txMs())
+	}
+	return s
+}
+
+func (e c15Ev) mult() uint8 {
+	if e.Mult == 0 {
+		return c15RemoteMult
+	}
+	return e.Mult
+}
+
+func (e c15Ev) txMs() int {
+	if e.TxMs == 0 {
+		return c15RemoteTxMs
+	}
+	return e.TxMs
 }
 
 func c15Events() []c15Ev {
@@ -61,7 +99,14 @@ func c15Events() []c15Ev {
 	return out
 }
 
-func c15Cfg() rtr.Cfg {
+// c15Local: the router's own BFD parameters in the BFS part.
+func c15Local() control.BFD {
+	return control.BFD{DetectMult: 3, DesiredMinTxInterval: 200 * time.Millisecond, RequiredMinRxInterval: 200 * time.Millisecond}
+}
+
+func c15Cfg() rtr.Cfg { return c15CfgL(c15Local()) }
+
+func c15CfgL(local control.BFD) rtr.Cfg {
 	cfg := rtr.StdCfg(true, rtr.KeyA)
 	for i := range cfg.Ifs {
 		f := &cfg.Ifs[i]
@@ -69,7 +114,7 @@ func c15Cfg() rtr.Cfg {
 			f.BFD = true
 		}
 	}
-	cfg.BFDCfg = &control.BFD{DetectMult: 3, DesiredMinTxInterval: 200 * time.Millisecond, RequiredMinRxInterval: 200 * time.Millisecond}
+	cfg.BFDCfg = &local
 	return cfg
 }
 
@@ -157,6 +202,11 @@ func (cr *c15Replay) count(k string, n int64) {
 // replay builds a fresh router in a fresh bubble, starts its links (real BFD sessions), applies the history and probes
 // every valid packet after every event.
 func (cr *c15Replay) replay(t *testing.T, hist []c15Ev) (canon string, viol *mc.Viol) {
+	return cr.replayWith(t, hist, cr.reuse, c15Local())
+}
+
+// replayWith: the router's sibling-link flavour and its own BFD parameters are arguments (the timed scenarios vary them).
+func (cr *c15Replay) replayWith(t *testing.T, hist []c15Ev, reuse bool, lbfd control.BFD) (canon string, viol *mc.Viol) {
 	local := map[string]int64{}
 	fail := func(key string, detail any) {
 		if viol == nil {
@@ -164,8 +214,8 @@ func (cr *c15Replay) replay(t *testing.T, hist []c15Ev) (canon string, viol *mc.
 		}
 	}
 	synctest.Test(t, func(t *testing.T) {
-		cfg := c15Cfg()
-		cfg.ReuseLocal = cr.reuse
+		cfg := c15CfgL(lbfd)
+		cfg.ReuseLocal = reuse
 		rt, err := rtr.Build(cfg)
 		if err != nil {
 			fail("harness:build", err.Error())
@@ -190,12 +240,38 @@ func (cr *c15Replay) replay(t *testing.T, hist []c15Ev) (canon string, viol *mc.
 				myDisc[k] = uint32(sp.LocalDiscriminator)
 			}
 		}
+		// Reference machine per BFD link (RFC 5880): the state (6.8.6) and the end of the current detection period (6.8.4):
+		// "the Detection Time calculated in the local system is equal to the value of Detect Mult RECEIVED FROM THE REMOTE
+		// SYSTEM, multiplied by the agreed transmit interval of the remote system (the greater of bfd.RequiredMinRxInterval
+		// and the last received Desired Min TX Interval)"; if that much time passes without a BFD control packet while
+		// the session is Init or Up, it goes Down. Every packet that is not discarded starts a new period.
 		const refDown, refInit, refUp = 1, 2, 3
 		ref := map[string]int{"ext": refDown, "sib": refDown}
-		refRecv := func(k string, st uint8, mine bool) {
+		deadline := map[string]time.Time{} // end of the running detection period (absent: no packet received yet)
+		expired := map[string]bool{}       // the link went down because its detection period ran out
+		lastInject := map[string]time.Time{}
+		refAdvance := func() {
+			now := time.Now()
+			for k, d := range deadline {
+				if diff := now.Sub(d); diff > -2*time.Millisecond && diff < 2*time.Millisecond {
+					fail("harness:probe-too-close-to-detection-deadline", fmt.Sprintf("link %s: deadline %v, now %v", k, d, now))
+				}
+				if !now.Before(d) {
+					delete(deadline, k)
+					if ref[k] != refDown {
+						ref[k] = refDown
+						expired[k] = true
+					}
+				}
+			}
+		}
+		refRecv := func(k string, st uint8, mine bool, mult uint8, txMs int) {
 			if !mine && (st == 2 || st == 3) {
 				return // Your Discriminator zero with state Init/Up: discarded
 			}
+			agreed := max(lbfd.RequiredMinRxInterval, time.Duration(txMs)*time.Millisecond)
+			deadline[k] = time.Now().Add(time.Duration(mult) * agreed)
+			expired[k] = false
 			switch {
 			case st == 0: // AdminDown
 				if ref[k] != refDown {
@@ -214,7 +290,8 @@ func (cr *c15Replay) replay(t *testing.T, hist []c15Ev) (canon string, viol *mc.
 		ifOf := map[string]uint16{"ext": c15ExtBFD, "sib": c15SibBFD, "ext-nobfd": 3, "sib-nobfd": 23}
 		// history of the up-state per BFD link, to recognise "forwarding resumes"
 		upHist := map[string][]bool{}
-		probe := func(step string, last bool) {
+		probe := func(step string, last bool, afterWait bool) {
+			refAdvance()
 			up := map[string]bool{"ext": ref["ext"] == refUp, "sib": ref["sib"] == refUp}
 			for k, v := range up {
 				upHist[k] = append(upHist[k], v)
@@ -280,6 +357,8 @@ func (cr *c15Replay) replay(t *testing.T, hist []c15Ev) (canon string, viol *mc.
 						return
 					}
 					switch {
+					case (kind == "ext" || kind == "sib") && afterWait:
+						local["forwarded-within-detection-time:"+kind]++
 					case (kind == "ext" || kind == "sib") && resumed(kind):
 						local["forwarded-resumed-after-down:"+kind]++
 					case kind == "ext" || kind == "sib":
@@ -326,7 +405,11 @@ func (cr *c15Replay) replay(t *testing.T, hist []c15Ev) (canon string, viol *mc.
 					fail("malformed-scmp-for-down-link:"+kind, d)
 					return
 				}
-				local["scmp-interface-down:"+kind]++
+				if expired[kind] {
+					local["scmp-interface-down-after-detection-time:"+kind]++
+				} else {
+					local["scmp-interface-down:"+kind]++
+				}
 			}
 			// forwarding followed the reference; the session object the link exposes must agree with it too
 			for k, v := range up {
@@ -337,19 +420,19 @@ func (cr *c15Replay) replay(t *testing.T, hist []c15Ev) (canon string, viol *mc.
 				}
 			}
 		}
-		probe("start", len(hist) == 0)
+		probe("start", len(hist) == 0, false)
 		for i, e := range hist {
 			if viol != nil {
 				return
 			}
 			step := fmt.Sprintf("%d:%v", i, e)
+			refAdvance()
 			switch e.Kind {
 			case "timeout":
-				time.Sleep(700 * time.Millisecond) // > detection time (3 x 200 ms), no BFD packet in between
-				for k := range ref {
-					if ref[k] != refDown {
-						ref[k] = refDown
-					}
+				time.Sleep(700 * time.Millisecond) // no BFD packet in between
+			case "wait":
+				if d := lastInject[e.Link].Add(e.Wait).Sub(time.Now()); d > 0 {
+					time.Sleep(d)
 				}
 			case "bfd":
 				your := uint32(0)
@@ -359,12 +442,14 @@ func (cr *c15Replay) replay(t *testing.T, hist []c15Ev) (canon string, viol *mc.
 						your = 0x01020304 // no session reachable through the link
 					}
 				}
-				bfd := rtr.BFDControl(e.State, 3, 0x5eed0000+uint32(e.State), your, 200000, 200000)
+				us := uint32(e.txMs()) * 1000
+				bfd := rtr.BFDControl(e.State, e.mult(), 0x5eed0000+uint32(e.State), your, us, us)
 				raw, in := c15BFDPacket(e.Link, ifOf[e.Link], bfd, uint32(time.Now().Unix()))
+				lastInject[e.Link] = time.Now()
 				res := rt.Process(raw, in)
 				configured := e.Link == "ext" || e.Link == "sib"
 				if configured {
-					refRecv(e.Link, e.State, e.Mine)
+					refRecv(e.Link, e.State, e.Mine, e.mult(), e.txMs())
 					if res.Fast.Disp != router.VerifDone {
 						local["bfd-packet-on-bfd-link-not-consumed"]++ // judged through its consequences on forwarding
 					}
@@ -377,7 +462,7 @@ func (cr *c15Replay) replay(t *testing.T, hist []c15Ev) (canon string, viol *mc.
 				time.Sleep(10 * time.Millisecond)
 			}
 			synctest.Wait()
-			probe(step, i == len(hist)-1)
+			probe(step, i == len(hist)-1, e.Kind == "wait")
 		}
 		canon = ""
 		for _, k := range []string{"ext", "sib"} {
@@ -479,6 +564,113 @@ func TestC15(t *testing.T) {
 						}
 					}
 				}
+			}
+		}
+	}
+	// ---- timed scenarios: asymmetric detect multipliers / intervals, silence of every length that separates two candidate
+	// detection times ----
+	//
+	// The detection time of a link is a function of FOUR configured numbers, two on each side; the BFS above fixes one
+	// neighbour. Here the router's own (mult, RequiredMinRx, DesiredMinTx) and the neighbour's announced (mult, interval)
+	// are crossed; the session is taken Up in three ways (the packet that counts is always the LAST one received, earlier
+	// ones announce other values), the neighbour falls silent, and the router is probed at every instant that lies between
+	// two consecutive candidate detection times {either multiplier} x {either side's interval, their max, their min}
+	// (plus the stale period announced by the earlier packets): before the RFC 5880 6.8.4 time the link must still
+	// carry traffic, after it it must not. Then the session is re-established.
+	type c15Timed struct {
+		link  string
+		reuse bool
+		local control.BFD
+		mult  uint8
+		txMs  int
+		hs    int
+	}
+	locals := []control.BFD{
+		c15Local(),
+		{DetectMult: 5, DesiredMinTxInterval: 50 * time.Millisecond, RequiredMinRxInterval: 50 * time.Millisecond},
+		{DetectMult: 1, DesiredMinTxInterval: 100 * time.Millisecond, RequiredMinRxInterval: 300 * time.Millisecond},
+	}
+	var timed []c15Timed
+	for li, l := range []string{"ext", "sib"} {
+		for lci, lc := range locals {
+			for mi, m := range []uint8{1, 2, 3, 5} {
+				for ti, tx := range []int{50, 200, 400} {
+					for hs := 0; hs < 3; hs++ {
+						for ri, reuse := range []bool{false, true} {
+							if !mc.Thorough() && ri != (li+lci+mi+ti+hs)%2 {
+								continue
+							}
+							timed = append(timed, c15Timed{l, reuse, lc, m, tx, hs})
+						}
+					}
+				}
+			}
+		}
+	}
+	const staleMult, staleTxMs = 4, 1000 // what the earlier packets of the handshake announce: a 4 s detection period
+	var nTimed, nInstants atomic.Int64
+	mc.ParallelFor(len(timed), func(i int) {
+		if r.OutOfBudget() {
+			r.Capped("internal budget (timed scenarios)")
+			return
+		}
+		sc := timed[i]
+		ev := func(st uint8, mine bool, mult uint8, tx int) c15Ev {
+			return c15Ev{Kind: "bfd", Link: sc.link, State: st, Mine: mine, Mult: mult, TxMs: tx}
+		}
+		var h []c15Ev
+		switch sc.hs {
+		case 0: // Down (stale values), Up (the values under test)
+			h = []c15Ev{ev(1, false, staleMult, staleTxMs), ev(3, true, sc.mult, sc.txMs)}
+		case 1: // a single Init packet takes a Down session Up
+			h = []c15Ev{ev(2, true, sc.mult, sc.txMs)}
+		case 2: // Up with stale values, a pause, then a refresh announcing the values under test
+			h = []c15Ev{ev(1, false, staleMult, staleTxMs), ev(3, true, staleMult, staleTxMs),
+				{Kind: "wait", Link: sc.link, Wait: 130 * time.Millisecond}, ev(3, true, sc.mult, sc.txMs)}
+		}
+		ms := func(d time.Duration) int { return int(d / time.Millisecond) }
+		ivs := []int{ms(sc.local.RequiredMinRxInterval), ms(sc.local.DesiredMinTxInterval), sc.txMs,
+			max(ms(sc.local.RequiredMinRxInterval), sc.txMs), min(ms(sc.local.RequiredMinRxInterval), sc.txMs)}
+		cand := map[int]bool{staleMult * staleTxMs: true}
+		for _, m := range []int{int(sc.mult), int(sc.local.DetectMult)} {
+			for _, iv := range ivs {
+				cand[m*iv] = true
+			}
+		}
+		var cs []int
+		for c := range cand {
+			cs = append(cs, c)
+		}
+		sort.Ints(cs)
+		prev := 0
+		for _, c := range cs {
+			if c-prev >= 8 {
+				h = append(h, c15Ev{Kind: "wait", Link: sc.link, Wait: time.Duration(prev+c) * time.Millisecond / 2})
+				nInstants.Add(1)
+			}
+			prev = c
+		}
+		h = append(h, c15Ev{Kind: "wait", Link: sc.link, Wait: time.Duration(prev+100) * time.Millisecond})
+		h = append(h, ev(1, false, sc.mult, sc.txMs), ev(3, true, sc.mult, sc.txMs),
+			c15Ev{Kind: "wait", Link: sc.link, Wait: time.Duration(int(sc.mult)*max(ms(sc.local.RequiredMinRxInterval), sc.txMs)) * time.Millisecond / 2})
+		nTimed.Add(1)
+		if _, v := cr.replayWith(t, h, sc.reuse, sc.local); v != nil {
+			own := fmt.Sprintf("mult %d, RequiredMinRx %v, DesiredMinTx %v", sc.local.DetectMult, sc.local.RequiredMinRxInterval,
+				sc.local.DesiredMinTxInterval)
+			if strings.HasPrefix(v.Key, "harness:") {
+				r.HarnessError("%s: %v (history %v; router's own BFD: %s)", v.Key, v.Detail, h, own)
+			} else {
+				r.Violation(v.Key, map[string]any{"history": fmt.Sprint(h), "detail": v.Detail, "router_bfd": own, "sibling_links_connected": sc.reuse})
+			}
+		}
+	})
+	nScen += nTimed.Load()
+	r.Extra["timed_scenarios"] = nTimed.Load()
+	r.Extra["timed_probe_instants_between_candidate_detection_times"] = nInstants.Load()
+	for _, k := range []string{"ext", "sib"} {
+		for _, o := range []string{"forwarded-within-detection-time:", "scmp-interface-down-after-detection-time:"} {
+			if cr.stat[o+k] == 0 && r.Violations() == 0 && !r.OutOfBudget() {
+				r.HarnessError("timed scenarios never reached outcome %s%s", o, k)
 			}
 		}
 	}
